@@ -4,6 +4,9 @@ CONSTANTS
   MaxTargets = 1
   MaxCorr = 1
   CorrKinds = {"sigOtherKey", "sigFlip", "sigSwap", "msgFlipKey", "msgFlipOther", "keySubst", "tweakFlip", "tweakRemove", "tweakAdd", "reparent", "wrongRoot"}
+  Shapes = {"longTail", "longHead"}
+  MaxShape = 1
+  ShapeWithCorr = FALSE
   TweakChoice = {"plain", "tweaked"}
 INVARIANT NeverValid
 CHECK_DEADLOCK FALSE
